@@ -3,6 +3,7 @@
 
 from jax2onnx._compat.jax import JaxprEqn
 import jax
+import numpy as np
 
 from jax2onnx.converter.typing_support import LoweringContextProtocol
 
@@ -42,7 +43,13 @@ class NegPlugin(PrimitiveLeafPlugin):
         if callable(producer) and producer() is not None:
             desired_name = ctx.fresh_name("neg_out")
 
-        result = ctx.builder.Neg(x_val, _outputs=[desired_name])
+        x_dtype = np.dtype(getattr(x_var.aval, "dtype", np.float32))
+        if np.issubdtype(x_dtype, np.unsignedinteger):
+            # ONNX Neg has no unsigned variant; two's-complement negation is 0 - x.
+            zero = ctx.bind_const_for_var(object(), np.asarray(0, dtype=x_dtype))
+            result = ctx.builder.Sub(zero, x_val, _outputs=[desired_name])
+        else:
+            result = ctx.builder.Neg(x_val, _outputs=[desired_name])
         if getattr(out_spec, "type", None) is not None:
             result.type = out_spec.type
         if getattr(out_spec, "shape", None) is not None:
